@@ -353,6 +353,21 @@ def _do_extract(raw, i, unitfile, repo_root, out, log, meta, twin=False):
             log.count("verified: #[derive(PartialEq)] is structural equality (PartialEqSpecImpl)")
         text = text.replace("#[derive()]", "           ")
     item = Item(ex, text, meta["unit"])
+    if "stub" in flags and kind == "fn":
+        # signature only: the body is dropped and the function becomes an assumed (external_body) callee.
+        # Used for callees outside the verifier's reach (nom combinator parsers); listed in evidence.
+        mt = mask(item.joined())
+        f0 = re.search(r"\bfn\b", mt)
+        b = find_top_level(mt, "{;", f0.start())
+        if b < 0 or mt[b] != "{":
+            raise ExtractError(f"stub: fn without body in {ex.describe()}")
+        li, ci = item._line_index(b)
+        item.lines[li].text = item.lines[li].text[:ci] + "{ unimplemented!() }"
+        del item.lines[li + 1:]
+        item.insert_lines(0, [Line("#[verifier::external_body]", ("gen", "stub: body dropped, assumed callee"))])
+        log.count("stub: callee signature only (assumed total, unverified)")
+        log.outlined.append({"item": ex.describe(), "repo_line": ex.first_line,
+                             "expression": "<whole function body>", "replaced_by": "unimplemented!() (assumed callee)"})
     log.extracted.append({"item": ex.describe(), "sha256": ex.sha256,
                           "lines": ex.last_line - ex.first_line + 1})
     prefix_lines, suffix_lines = [], []
@@ -457,11 +472,14 @@ def _do_extract(raw, i, unitfile, repo_root, out, log, meta, twin=False):
             i += 1
         elif dname == "outline":
             (a, e), n = item.find_anchor(ticks[0], _occ(words))
-            li, _ = item._line_index(a)
-            item.replace_span(a, e, ticks[1])
-            log.outlined.append({"item": ex.describe(), "repo_line": item.lines[li].origin[2] if item.lines[li].origin[0] == "repo" else None,
-                                 "expression": ticks[0], "replaced_by": ticks[1]})
-            log.count("outlined expression (assumed contract)")
+            occurrences = list(range(n, 0, -1)) if "all" in words else [_occ(words)]
+            for k in occurrences:
+                (a, e), _ = item.find_anchor(ticks[0], k)
+                li, _ = item._line_index(a)
+                item.replace_span(a, e, ticks[1])
+                log.outlined.append({"item": ex.describe(), "repo_line": item.lines[li].origin[2] if item.lines[li].origin[0] == "repo" else None,
+                                     "expression": ticks[0], "replaced_by": ticks[1]})
+                log.count("outlined expression (assumed contract)")
             i += 1
         elif dname == "n1":
             _n1(item, ticks[0], _occ(words), log)
